@@ -72,7 +72,9 @@ def make_incomplete(schema, pop, rng, frac=.3):
     return gen_p21.Population(schema, insts, pop.header), incomplete
 
 
-RELOADS = ('fresh', 'purge', 'clear')   # how the session is emptied before the saved file is read back
+RELOADS = ('fresh', 'purge', 'clear', 'purge after another file', 'clear after another file')
+# how the session is emptied before the saved file is read back; "after another file": the same session object has meanwhile
+# read an unrelated exchange file whose header has five entities (edition-2 SECTION_LANGUAGE / SECTION_CONTEXT)
 
 
 def judge(chk, lib, pop, sigma, tagset, reload='fresh'):
@@ -82,12 +84,20 @@ def judge(chk, lib, pop, sigma, tagset, reload='fresh'):
     files = {'schema.exp': lib.schema.text(), 'in.p21': text, 'states.txt': ','.join('%d:%s' % kv for kv in sorted(sigma.items()))}
     found = []
     shape = ('+'.join(sorted(tagset)) or 'plain') + ('' if reload == 'fresh' else ', reloaded into the same session (%s)' % reload)
+    other = None
+    if reload.endswith('after another file'):
+        reload = reload.split()[0]
+        other = gen_p21.render(gen_p21.Population(pop.schema, pop.insts[:1], pop.header), 'compact')
+        other = other.replace('ENDSEC;\nDATA;', "SECTION_LANGUAGE($,'en');\nSECTION_CONTEXT($,('other context'));\nENDSEC;\nDATA;", 1)
+        other = other.replace("FILE_DESCRIPTION((", "FILE_DESCRIPTION(('the other file',", 1)
+        files['other.p21'] = other
     with p21fam.Scratch('c16') as sc:
         inp = sc.write('in.p21', text)
+        between = [reload] if other is None else [reload, 'read', sc.write('other.p21', other), reload]
         spec = ','.join('%d:%s' % kv for kv in sorted(sigma.items()))
         ops = ['read', inp, 'dump', sc.path('b.txt')] + (['states', spec] if spec else []) + \
-              ['writews', sc.path('w1.ws'), reload, 'readws', sc.path('w1.ws'), 'dump', sc.path('d.txt'), 'writews', sc.path('w2.ws'),
-               reload, 'readws', sc.path('w2.ws'), 'writews', sc.path('w3.ws')]
+              ['writews', sc.path('w1.ws')] + between + ['readws', sc.path('w1.ws'), 'dump', sc.path('d.txt'), 'writews', sc.path('w2.ws')] + \
+              between + ['readws', sc.path('w2.ws'), 'writews', sc.path('w3.ws')]
         r = p21fam.mon(lib, ops, sc.d)
         chk.ev()
         if r.crashed() or r.timed_out:
